@@ -57,18 +57,32 @@ def sh(cmd, cwd=None, timeout=None, env=None):
 # ------------------------------------------------------------------ Coq
 
 def coq_makefile():
-    mk = os.path.join(COQ, "Makefile")
+    """Generate coq/Makefile.gen from _CoqProject, skipping listed files that do not exist (so that a
+    half-registered file cannot break every other property's build)."""
     cp = os.path.join(COQ, "_CoqProject")
-    if not os.path.exists(mk) or os.path.getmtime(mk) < os.path.getmtime(cp):
-        rc, out, _ = sh(["coq_makefile", "-f", "_CoqProject", "-o", "Makefile"], cwd=COQ, timeout=120)
+    gen = os.path.join(COQ, "_CoqProject.gen")
+    mk = os.path.join(COQ, "Makefile.gen")
+    lines = []
+    for line in open(cp).read().split("\n"):
+        t = line.strip()
+        if t.endswith(".v") and not t.startswith("-") and not os.path.exists(os.path.join(COQ, t)):
+            continue
+        lines.append(line)
+    text = "\n".join(lines)
+    if not os.path.exists(gen) or open(gen).read() != text or not os.path.exists(mk):
+        with open(gen, "w") as f:
+            f.write(text)
+        rc, out, _ = sh(["coq_makefile", "-f", "_CoqProject.gen", "-o", "Makefile.gen"], cwd=COQ, timeout=120)
         if rc != 0:
             raise RuntimeError("coq_makefile failed: " + out)
 
 
-def coq_build(targets=None, timeout=3000):
+def coq_build(targets=None, timeout=3000, keep_going=False):
     """Build (incrementally) the given .vo targets (paths relative to coq/), or everything."""
     coq_makefile()
-    cmd = ["make", "-j%d" % NPROC]
+    cmd = ["make", "-f", "Makefile.gen", "-j%d" % NPROC]
+    if keep_going:
+        cmd.append("-k")
     if targets:
         cmd += targets
     rc, out, dt = sh(cmd, cwd=COQ, timeout=timeout)
